@@ -16,9 +16,10 @@ BUDGET = {
     "thorough": {"runs": 250_000, "wall": 1500, "chunk": 100, "minimise": 200},
 }
 REQUIRED_PROBES = {"quick": ("two_outstanding", "reply_permuted", "reply_late", "reply_never", "reconnects",
-                             "unsolicited_delivered"),
+                             "unsolicited_delivered", "transport_secsi", "multi_block_reply"),
                    "thorough": ("two_outstanding", "reply_permuted", "reply_late", "reply_never", "reconnects",
-                                "unsolicited_delivered", "counter_wrap", "reply_twice")}
+                                "unsolicited_delivered", "counter_wrap", "reply_twice", "transport_secsi",
+                                "multi_block_reply", "multi_block_unsolicited")}
 EVIDENCE = {
     "level": "exploration",
     "rule": ("2-5 simulated caller threads x 1-6 token-carrying requests; the peer answers each per plan (now, delayed, "
@@ -76,6 +77,18 @@ def gen_plan(rng, tier, index):
         "t5": rng.choice([1, 2]), "latency": rng.choice([0.0, 0.0005, 0.01]),
         "start_stagger": rng.choice([0, 0, 0.001]),
     }
+    if rng.random() < 0.15:
+        # the same request/reply matching and delivery over the SECS-I transport: replies and unsolicited primaries of
+        # several blocks, the library is the host (contention slave)
+        plan["transport"] = "secsi"
+        plan["secsi"] = {
+            "callers": [[[rng.choice([0, 0, 0.01, 0.3]), rng.choice(["now", "now", "d0.05", "d0.5", "never"]),
+                          rng.choice([0, 10, 244, 245, 600, 1000])] for _ in range(rng.choice([1, 2, 3]))]
+                        for _ in range(rng.choice([1, 2, 3]))],
+            "unsol": [[round(rng.choice([0, 0.01, 0.2, 0.6, 1.5]), 3), rng.choice([0, 10, 244, 245, 700])]
+                      for _ in range(rng.choice([0, 1, 2, 4]))],
+            "chunk": rng.choice(["whole", "whole", "random"]),
+        }
     sched = dict(rng.choice(SCHEDS))
     sched["seed"] = rng.getrandbits(48)
     plan["sched"] = sched
@@ -100,7 +113,148 @@ def _token(c, i):
     return bytes([0xC0 + c, i, 0x5A, c * 16 + i])
 
 
+def run_secsi(sim, plan):
+    """C06 over SECS-I: callers' replies (also multi-block) reach exactly their requester; unsolicited (multi-block)
+    primaries are delivered once, in order."""
+    import random
+
+    import secsgem.secs.functions as sf
+
+    from simkit import secsienv
+    from scenarios.c16 import make_chunker
+
+    k = sim.k
+    cfg = plan["secsi"]
+    sim.probe("transport_secsi")
+    line = sim.make_line(a="SIMA", b="SIMB")
+    line.chunker = make_chunker({"chunk": cfg["chunk"], "chunk_gap": 0.0002}, random.Random(plan["seed"] ^ 0xC06))
+    proto = secsienv.make_endpoint(sim, "SIMA", host=True, device_id=0, t3=T3)
+    rec = secsienv.Recorder(sim, proto, "ep")
+    peer = secsienv.SecsIPeer(sim, line, "SIMB")
+    peer.is_master = True
+    modes = {}
+    for c, reqs in enumerate(cfg["callers"]):
+        for i, (_think, mode, size) in enumerate(reqs):
+            modes[_token(c, i)] = (mode, size)
+    on_wire = {}     # token -> system
+    replied = {}     # token -> reply body
+
+    def on_message(msg):
+        if (msg["stream"], msg["function"]) != (2, 25) or not msg["w"]:
+            return
+        try:
+            token = rc.decode_body(msg["body"]).value
+        except Exception:  # noqa: BLE001
+            return
+        on_wire[token] = msg["system"]
+        mode, size = modes.get(token, ("now", 0))
+        body = rc.enc(rc.b(token + bytes((token[3] + j) & 0xFF for j in range(size))))
+        if size > 244:
+            sim.probe("multi_block_reply")
+
+        def send_reply():
+            replied[token] = body
+            blocks = rc.split_message(0, True, False, 2, 26, msg["system"], body)
+            peer.send_blocks([b.encode() for b in blocks])
+
+        if mode == "now":
+            send_reply()
+        elif mode.startswith("d"):
+            k.schedule(float(mode[1:]), send_reply)
+        else:
+            sim.probe("reply_never")
+
+    peer.on_message = on_message
+    en = {"done": False}
+
+    def enable():
+        proto.enable()
+        en["done"] = True
+
+    sim.spawn(enable, "app_enable", role="app")
+    if not sim.wait_until(lambda: en["done"], 5):
+        sim.inconclusive("enable() did not return")
+    sim.advance(0.1)
+    results = {}
+    calls = []
+
+    def caller(c):
+        for i, (think, _mode, _size) in enumerate(cfg["callers"][c]):
+            if think:
+                facades.time_facade.sleep(think)
+            token = _token(c, i)
+            r = {"t0": k.now, "res": "pending"}
+            results[token] = r
+            msg = proto.send_and_waitfor_response(sf.SecsS02F25(token))
+            r["t1"] = k.now
+            r["res"] = None if msg is None else (msg.header.system, msg.header.stream, msg.header.function, bytes(msg.data))
+
+    for c in range(len(cfg["callers"])):
+        done = {"done": False}
+        calls.append(done)
+
+        def body(c=c, done=done):
+            caller(c)
+            done["done"] = True
+
+        sim.spawn(body, f"app_caller{c}", role="app")
+    # unsolicited primaries from the equipment
+    unsol = []
+    t_base = sim.now
+    for n, (t, size) in enumerate(sorted(cfg["unsol"])):
+        if t_base + t > sim.now:
+            sim.sleep(t_base + t - sim.now)
+        body = rc.enc(rc.b(bytes([0xEE, n]) + bytes((n + j) & 0xFF for j in range(size))))
+        system = 0x70000000 + n
+        if size > 244:
+            sim.probe("multi_block_unsolicited")
+        unsol.append((system, body))
+        peer.send_blocks([b.encode() for b in rc.split_message(0, True, False, 6, 111, system, body)])
+    nreq = sum(len(r) for r in cfg["callers"])
+    if not sim.wait_until(lambda: all(c["done"] for c in calls), 20 + nreq * (T3 + 3)):
+        sim.violation("C06.R6", "a caller neither got its reply nor a timeout (SECS-I)", sig="C06.R6|caller-stuck|secsi")
+    sim.advance(1.0)
+    if peer.contentions:
+        sim.probe("secsi_contention")
+    if peer.errors:
+        sim.inconclusive(f"line protocol errors seen by the reference peer (C17's subject): {peer.errors[:2]}")
+    for token, r in results.items():
+        mode, size = modes[token]
+        if token not in on_wire:
+            if r["res"] is not None:
+                sim.violation("C06.R2", f"caller with token {token.hex()} got {r['res'][:3]} although its request never "
+                              "reached the peer", sig="C06.R2|foreign-reply|secsi")
+            continue
+        if mode == "never":
+            if r["res"] is not None:
+                sim.violation("C06.R2", f"caller with token {token.hex()} got {r['res'][:3]} although nothing was sent "
+                              "for it", sig="C06.R2|foreign-reply|secsi")
+            continue
+        want = (on_wire[token], 2, 26, replied.get(token))
+        if r["res"] is None:
+            sim.violation("C06.R2", f"caller with token {token.hex()} got a timeout although its reply ({len(want[3])} "
+                          f"body bytes, {max(1, (len(want[3]) + 243) // 244)} blocks) was acknowledged on the line",
+                          sig="C06.R2|reply-lost|secsi")
+        if r["res"] != want:
+            sim.violation("C06.R2", f"caller with token {token.hex()} (system {want[0]:#x}) received system "
+                          f"{r['res'][0]:#x} S{r['res'][1]}F{r['res'][2]} with {len(r['res'][3])} body bytes, expected its "
+                          f"own reply of {len(want[3])} bytes", sig="C06.R2|foreign-reply|secsi")
+    got = [(m["system"], m["body"]) for m in rec.received if m["system"] >= 0x70000000]
+    if got != unsol:
+        sim.violation("C06.R4", f"unsolicited primaries sent {[(hex(s_), len(b)) for s_, b in unsol]}, delivered "
+                      f"{[(hex(s_), len(b)) for s_, b in got]}", sig="C06.R4|" + (
+                          "lost" if len(got) < len(unsol) else "duplicated-or-reordered") + "|secsi")
+    stray = [m for m in rec.received if m["system"] < 0x70000000]
+    if stray:
+        sim.violation("C06.R3", f"a reply was handed to the application as an unsolicited message: "
+                      f"{[(hex(m['system']), m['stream'], m['function']) for m in stray][:3]}", sig="C06.R3|reply-as-unsolicited|secsi")
+    sim.nontrivial = True
+    sim.abstract = ("secsi", [len(r) for r in cfg["callers"]], len(unsol), plan["sched"]["policy"])
+
+
 def run(sim, plan):
+    if plan.get("transport") == "secsi":
+        return run_secsi(sim, plan)
     import secsgem.secs.functions as sf
 
     k = sim.k
